@@ -1,2 +1,4 @@
 def run(ctx):
-    return ""
+    from . import kernel_proofs
+
+    return kernel_proofs.run(ctx, ["nanmax", "nanmin", "grouped_max_nosize"], "C20")
